@@ -61,10 +61,8 @@ theorem inverseRleBlock_bounded (b : Block) (q : Nat) (hdc : ∀ dc, b.intradc =
       · simp only [Option.some.injEq] at h; rw [← h]; trivial
       · simp only [Option.some.injEq] at h; rw [← h]; exact intraDcLevel_natAbs dc (hdc dc hdc')
     · simp only [Option.some.injEq] at h; rw [← h]; trivial
-  · simp only at h
-    have hinit : AllB (match b.intradc with
-        | some dc => ({ data := (List.replicate 64 (0 : Int)).set 0 (intraDcLevel dc), isHoriz := true, isVert := true, zz := 1 } : RleState)
-        | none => { data := List.replicate 64 0, isHoriz := true, isVert := true, zz := 0 }).data := by
+  · have hinit : AllB (initState b).data := by
+      unfold initState
       split
       · rename_i dc hdc'
         exact allB_set _ (allB_replicate 64) _ _ (intraDcLevel_natAbs dc (hdc dc hdc'))
